@@ -225,6 +225,23 @@ def check(ctx):
         raise AnalysisError("routine failing the pending futures not found in NetworkClient")
     ctx.note("pending_table", TABLE)
 
+    # ---- R12 the table belongs to ONE connection: a fresh container per instance, bound in __init__, no class-level container
+    ctx.rule("C14-R12", "the pending table is per connection: __init__ binds a new empty container to it on every path and the class body holds no container of that name (a class-level dict is shared by all connections)")
+    tattr = TABLE.split(".", 1)[1]
+    kinit = repo.fn(f"{IPC}:NetworkClient.__init__")
+    ctx.instance("C14-R12", kinit.fq, tattr)
+    fresh_val = lambda v: (isinstance(v, ast.Dict) and not v.keys) or (isinstance(v, ast.Call) and not v.args and not v.keywords and
+                                                                         (callee_name(v) in ("dict", "OrderedDict") or (callee_name(v) or "")[:1].isupper()))
+    inits = [n for n in walk_local(kinit.node) if isinstance(n, (ast.Assign, ast.AnnAssign)) and any(dotted(t) == TABLE for t in (n.targets if isinstance(n, ast.Assign) else [n.target]))]
+    ok = bool(inits) and all(n.value is not None and fresh_val(n.value) for n in inits) and any(getattr(n, "_parent", None) is kinit.node for n in inits)
+    ctx.ob("C14-R12", kinit.fq, f"__init__ binds a new empty container to {TABLE} unconditionally", ok, node=inits[0] if inits else kinit.node, construct=f"{TABLE} created per instance",
+           msg=f"{TABLE} is not created in __init__: every NetworkClient of the process then shares one table, and the cleanup of one connection fails (and clears) the calls of all the others")
+    kcls = repo.cls(IPC, "NetworkClient")
+    shared = [n for n in kcls.body if isinstance(n, (ast.Assign, ast.AnnAssign)) and any(isinstance(t, ast.Name) and t.id == tattr for t in (n.targets if isinstance(n, ast.Assign) else [n.target]))
+              and getattr(n, "value", None) is not None and not (isinstance(n.value, ast.Constant))]
+    ctx.ob("C14-R12", f"{IPC}:NetworkClient", f"the class body does not hold a container named {tattr}", not shared, node=shared[0] if shared else kcls, construct=f"class-level {tattr}",
+           msg=f"`{tattr}` is a class attribute holding a mutable container: it is one object for every connection")
+
     # ---- R1
     def dirty(st):
         return any(isinstance(c.func, ast.Attribute) and c.func.attr in ("connect", lst.name) for c in calls_in(st))
@@ -569,6 +586,8 @@ MUTATION_SCOPE = ['sys_fn_ipc:NetworkClient._run',
                   'sys_fn_ipc:execute_server_command']
 
 SEEDS = [
+    Seed("pending-table-class-level", "fault", IPC, "        self.pending_responses = {}\n", "", rule="C14-R12",
+         more=[(IPC, "class NetworkClient(KGLambda):\n", "class NetworkClient(KGLambda):\n    pending_responses: dict = {}\n")]),
     Seed("run-exit-event-not-set", "fault", IPC, "        self._run_exit_event.set()\n", "        pass\n", rule="C14-R11"),
     Seed("run-handlers-narrowed", "fault", IPC, "            except Exception as e:\n                close_exception = KlongIPCConnectionFailureException(\"unknown error\")", "            except OSError as e:\n                close_exception = KlongIPCConnectionFailureException(\"unknown error\")", rule="C14-R11"),
     Seed("send-through-captured-writer", "fault", IPC, "        msg_id = uuid.uuid4()\n", "        msg_id = uuid.uuid4()\n        w = self.writer\n",
